@@ -23,10 +23,12 @@ from vf.sym import Result, Sym
 _NOFLAGS = {"daemon1": 0, "daemon2": 0, "cancel1": 0, "cdm0a": 0, "cdm1a": 0}
 
 
-def _run(P, prefix=""):
+def _run(P, prefix="", between=None):
     m = Model(P)
     m.make_sim()
     m.schedule()
+    if between is not None:
+        between()           # unrelated activity after the model is built and before it runs
     m.sim.run()
     return m.deliveries(), m.sim._events_processed
 
@@ -48,7 +50,14 @@ def prior_activity(sym, tier):
     junk = Recorder("junk", [])
     for i in range(sym.int("loose_events_created", 0, 3)):
         mk_event(i, "loose", junk)                  # events created outside any simulation advance the global counter
-    second = _run(PA)
+    def other_sim_built():
+        if sym.bool("another_simulation_constructed_before_run"):
+            from happysimulator.core.simulation import Simulation
+            other = Simulation(entities=[Recorder("other", [])])
+            for i in range(sym.int("events_created_for_it", 0, 2)):
+                mk_event(i, "other", other._entities[0])
+
+    second = _run(PA, between=other_sim_built)
     if first != second:
         r.bad("run_does_not_depend_on_preceding_activity", {"first": first, "second": second})
     if len(first[0]) >= 3:
